@@ -362,7 +362,25 @@ class Decl:
                 "vis": self.vis, "generics": self.generics, "attrs": self.attrs, "kind": self.kind,
                 "fields": self.fields, "tags": sorted(self.tags), "extra_items": self.extra_items,
                 "inst": getattr(self, "inst", None), "inner_concrete": getattr(self, "inner_concrete", None),
-                "bounds": getattr(self, "bounds", None)}
+                "bounds": getattr(self, "bounds", None), "extra": self._extras()}
+
+    CORE = ("id", "inner", "toks", "env", "name", "vis", "generics", "attrs", "kind", "fields", "tags", "extra_items",
+            "inst", "inner_concrete", "bounds", "features")
+
+    def _extras(self):
+        """what the corpus generators attach to a declaration (intended rule, witnesses, shape...):
+        needed to rebuild the same probes when a replay file is re-run"""
+        import json as _json
+        out = {}
+        for k_, v in self.__dict__.items():
+            if k_ in Decl.CORE:
+                continue
+            try:
+                _json.dumps(v)
+            except (TypeError, ValueError):
+                continue
+            out[k_] = v
+        return out
 
     @staticmethod
     def from_json(j):
@@ -396,6 +414,8 @@ class Decl:
             d.inner_concrete = j["inner_concrete"]
         if j.get("bounds") is not None:
             d.bounds = j["bounds"]
+        for k_, v in (j.get("extra") or {}).items():
+            setattr(d, k_, tup(v))
         return d
 
     def family(self):
